@@ -18,9 +18,20 @@
                     of the peer has expired (the table is cleared)
      6              the connection gater will park the next request handling of a worker loop
      7              the parked gater call returns
+     8 c dt dd      the call of caller c was made with the DialPeer timeout dt ns
+                    (network.WithDialPeerTimeout) on a context whose own deadline lay dd ns after
+                    the call (dd < 0: a context without deadline); virtual time now passes
+                    min(call time + dt, call time + dd): "the caller's context or the dial timeout
+                    ended".  To the dialing machinery this is the caller's dial context becoming
+                    Done, i.e. the same event as 4 c, and it is decoded as KCancel c; clause 2
+                    of the monitor then demands that the call has returned in this step.  The
+                    harness chooses dt and dd off the 1 ms grid on which every other timer of a
+                    case lies, stops the clock 1 ns before the instant, records the 1 ns step
+                    that crosses it as this stimulus and adds the 1 ns to the next stimulus 2.
    observation (after synctest.Wait):
      nr (c kind)*nr   DialPeer calls that returned in this step: 0 a connection to that
-                      very peer, 1 an error, 2 the caller's context error, 3 a connection
+                      very peer, 1 an error, 2 the caller's context error (or the deadline
+                      error of the dial timeout once that has ended), 3 a connection
                       to another peer
      ns (a)*ns        transport Dial calls started in this step
      ne (a)*ne        transport Dial calls that ended in this step
@@ -58,6 +69,7 @@ Definition decode_kstim (l : list Z) : option (cstim * list Z) :=
   | 5 :: a :: r => Some (KBackoff a, r)
   | 6 :: r => Some (KPark, r)
   | 7 :: r => Some (KRelease, r)
+  | 8 :: c :: _ :: _ :: r => Some (KCancel c, r)
   | _ => None
   end.
 
@@ -123,7 +135,8 @@ Fixpoint monitor_d (fdl ppl : Z) (m : dmon) (i : Z) (tr : list (cstim * dobs)) :
       if negb (forallb (fun e => mem_z (fst e) wait0 && negb (snd e =? 3) &&
                                  (negb (snd e =? 0) || succ)) (d_rets o) && nodup_z done')
       then [ERR_PROPERTY; i; 1]
-      (* 2: a cancelled caller is released in the same step, with its context error *)
+      (* 2: a caller whose context is cancelled - or whose context's deadline or DialPeer
+            timeout passes (stimulus 8) - is released in the same step, with that context error *)
       else if match x with
               | KCancel c => mem_z c (dm_wait m) && negb (existsb (fun e => (fst e =? c) && (snd e =? 2)) (d_rets o))
               | _ => false end
